@@ -15,11 +15,16 @@
    Also proved (Expand/ExpandElem.v): the `$ref` chains of parameters / responses / path items (deref) are followed in the
    document each hop lands in, and an expanded parameter / response has the members of the end of its chain with a
    bisimilar schema — whenever the chain is followed to its end (a chain cut as circular denotes nothing).
-   Not proved (covered by the correspondence and the oracle only): the composition over operations, path items and the
-   sections of a whole specification, and the URL-algebra conditions in G_same/G_render for ALL urls (decided per graph). *)
+   Also proved (Expand/ExpandChain.v, ExpandSpecSim.v): the chains of a well-formed graph of elements ARE followed to their
+   end, and the whole of ExpandSpec — lists of parameters, maps of responses, operations, path items, the four sections,
+   with the state threaded from call to call — returns the input document in which every definition, shared parameter,
+   shared response and path item is replaced by an element with the same meaning, and nothing else is changed
+   ([C02_expand_spec_preserves_meaning], with a non-vacuity example on a two-document specification).
+   Not proved (covered by the correspondence and the oracle only): the URL-algebra conditions in G_same/G_render for ALL
+   urls (they are decided per graph), ContinueOnError mode, graphs outside the hypotheses (ids, siblings of `$ref`). *)
 From Coq Require Import List String Bool.
 From Spec Require Import Base.Json Base.Url Codec.Types Codec.Gen_Tables Codec.Codec Codec.CodecFacts
-  Expand.Expand Expand.ExpandFacts Expand.ExpandSim Expand.ExpandSimCheck Expand.ExpandCycle Expand.ExpandElem Expand.ExpandExample.
+  Expand.Expand Expand.ExpandFacts Expand.ExpandSim Expand.ExpandSimCheck Expand.ExpandCycle Expand.ExpandElem Expand.ExpandChain Expand.ExpandSpecSim Expand.ExpandExample.
 Import ListNotations.
 Local Open Scope string_scope.
 
@@ -173,10 +178,83 @@ Example C02_example_chain_runs : exists s' j',
              6 ex_s0 (Some el_other_url) el_other_url "Parameter" (JObj el_holder) = Done (s', j').
 Proof. vm_compute. eexists. eexists. reflexivity. Qed.
 
-(* ---------- beyond the schema walk ---------- *)
-(* path items and operations (lists of parameters, maps of responses) and the four sections of ExpandSpec are compositions
-   of the functions above; the composition itself is not proved — it is tied by the differential run and judged by the
-   oracle.  The witness of the repaired defect F7 through the whole of ExpandSpec, as an evaluation of the model: *)
+(* ---------- the whole of ExpandSpec ---------- *)
+(* chains of a well-formed graph of located elements are followed to their end: neither the memo of circular references
+   (which only ever holds references of the schema graph: [MD]) nor the stack of the chain itself (the rank decreases) cuts
+   them, and they leave the memo as it was *)
+Theorem C02_chains_are_followed_to_their_end : forall E docs cwd OP live rid,
+  (forall lu ld, live = Some (lu, ld) -> doc_at docs cwd lu = Some ld) -> o_cont OP = false ->
+  forall GE : string -> string -> list (string * json) -> Prop,
+  (forall kind b m, GE kind b m -> get_str "$ref" m <> "" -> remove_key "$ref" m = []) ->
+  (forall kind b m b1 tm, GE kind b m -> get_str "$ref" m <> "" ->
+     sem_target_k E docs cwd kind (get_str "$ref" m) b = Some (b1, JObj tm) -> GE kind b1 tm /\ merge_over tm [] = tm) ->
+  (forall kind b m nref, GE kind b m -> get_str "$ref" m <> "" -> nuri (get_str "$ref" m) b = POk nref ->
+     keeps_resolver (get_str "$ref" m) b nref -> nbase cwd (strip_frag nref) = nbase cwd (strip_frag b)) ->
+  forall MD : string -> Prop, (forall x, chain_ref GE x -> ~ MD x) ->
+  forall rk : string -> nat,
+  (forall kind b m nref b1 tm nref1, GE kind b m -> get_str "$ref" m <> "" ->
+     nuri (get_str "$ref" m) b = POk nref -> sem_target_k E docs cwd kind (get_str "$ref" m) b = Some (b1, JObj tm) ->
+     get_str "$ref" tm <> "" -> nuri (get_str "$ref" tm) b1 = POk nref1 -> rk nref1 < rk nref) ->
+  forall kind fuel s parents rroot base m s' m1 rr1 b1,
+  GE kind base m -> Inv docs rid s -> Coh cwd rroot base -> MemoIn MD s -> above rk parents base m ->
+  deref E docs cwd OP live fuel s parents rroot base kind m = Done (s', m1, rr1, b1) ->
+  get_str "$ref" m1 = "" /\ memo s' = memo s.
+Proof. exact deref_ends. Qed.
+Print Assumptions C02_chains_are_followed_to_their_end.
+
+(* ExpandSpec (the function the differential run executes: Expand.expand_spec) on a graph whose hypotheses the verified
+   checkers decide: the schema graph (check_nodes), the graph of located elements (check_enodes), the chains (check_chains:
+   fresh and ranked), the path items (check_pis) and the root document (check_root).  For every store, every state that
+   satisfies the invariant (cache within the store, memo within the cycles of the schema graph: whatever was expanded
+   before), every fuel, AbsoluteCircularRef on or off, strict mode, schemas not skipped: when ExpandSpec returns, what it
+   returns is [spec_rel]-related to the input: section by section, entry by entry, the same names in the same order, each
+   definition bisimilar to the input's, each parameter / response the end of its chain with a bisimilar schema, each path
+   item the end of its chain with its parameters and operations replaced likewise, vendor extensions and everything else
+   untouched; and the invariant holds again. *)
+Theorem C02_expand_spec_preserves_meaning : forall E docs cwd OP ctx_base rid nodes enodes bad0 ranks live,
+  (forall lu ld, live = Some (lu, ld) -> doc_at docs cwd lu = Some ld) ->
+  o_cont OP = false -> o_skip OP = false ->
+  check_nodes E docs cwd OP ctx_base rid nodes = true ->
+  check_enodes E docs cwd enodes nodes = true ->
+  check_chains E docs cwd nodes enodes bad0 ranks = true ->
+  check_pis enodes = true ->
+  forall d root_url m s s' out,
+  check_root ctx_base nodes enodes bad0 m = true ->
+  Inv2 E docs cwd rid (GN nodes) bad0 s -> Coh cwd (Some root_url) ctx_base ->
+  expand_spec E docs cwd OP ctx_base live d root_url (JObj m) s = Done (s', out) ->
+  Inv2 E docs cwd rid (GN nodes) bad0 s' /\ spec_rel E docs cwd ctx_base m out.
+Proof.
+  intros E docs cwd OP ctx_base rid nodes enodes bad0 ranks live Hlive Hstrict Hskip Hck Hcke Hckc Hckp d root_url m s s' out Hroot Hs Hcoh H.
+  exact (checked_spec_sim E docs cwd OP ctx_base rid nodes enodes bad0 ranks live Hlive Hstrict Hskip Hck Hcke Hckc Hckp d (S d) root_url m s s' out Hroot Hs Hcoh H).
+Qed.
+Print Assumptions C02_expand_spec_preserves_meaning.
+
+(* non-vacuity: the two-document specification of ExpandExample.v (recursive definition, shared parameter that is a chain
+   of three hops across the documents, shared response, a path item with its own parameters and an operation, a path item
+   imported from the other document, a vendor extension among the responses): the five checkers answer true, ExpandSpec
+   returns from the initial state, and its result is related to the input *)
+Example C02_spec_example : forall abs,
+  exists s' out, expand_spec gen_env sp_docs "/" (mkOpts false false abs) sp_root_url sp_live 12 sp_root_url (JObj sp_members) ex_s0 = Done (s', out)
+                 /\ spec_rel gen_env sp_docs "/" sp_root_url sp_members out.
+Proof.
+  intros abs. set (OP := mkOpts false false abs).
+  assert (Hck : check_nodes gen_env sp_docs "/" OP sp_root_url "" sp_nodes = true) by (destruct abs; vm_compute; reflexivity).
+  assert (Hcke : check_enodes gen_env sp_docs "/" sp_enodes sp_nodes = true) by (vm_compute; reflexivity).
+  assert (Hckc : check_chains gen_env sp_docs "/" sp_nodes sp_enodes sp_bad0 sp_ranks = true) by (vm_compute; reflexivity).
+  assert (Hckp : check_pis sp_enodes = true) by (vm_compute; reflexivity).
+  assert (Hroot : check_root sp_root_url sp_nodes sp_enodes sp_bad0 sp_members = true) by (vm_compute; reflexivity).
+  assert (Hlive : forall lu ld, sp_live = Some (lu, ld) -> doc_at sp_docs "/" lu = Some ld) by (intros lu ld E; inversion E; subst; vm_compute; reflexivity).
+  assert (Hs : Inv2 gen_env sp_docs "/" "" (GN sp_nodes) sp_bad0 ex_s0).
+  { split; [split; [intros u d E; discriminate|reflexivity]|intros x Hx; destruct Hx]. }
+  assert (Hcoh : Coh "/" (Some sp_root_url) sp_root_url) by (intros ru E; inversion E; subst; reflexivity).
+  assert (Hrun : exists s' out, expand_spec gen_env sp_docs "/" OP sp_root_url sp_live 12 sp_root_url (JObj sp_members) ex_s0 = Done (s', out))
+    by (destruct abs; vm_compute; eexists; eexists; reflexivity).
+  destruct Hrun as [s' [out Hrun]]. exists s', out. split; [exact Hrun|].
+  exact (proj2 (C02_expand_spec_preserves_meaning gen_env sp_docs "/" OP sp_root_url "" sp_nodes sp_enodes sp_bad0 sp_ranks sp_live
+                  Hlive eq_refl eq_refl Hck Hcke Hckc Hckp 12 sp_root_url sp_members ex_s0 s' out Hroot Hs Hcoh Hrun)).
+Qed.
+
+(* the witness of the repaired defect F7 through the whole of ExpandSpec, as an evaluation of the model: *)
 Definition f7_root := pj
  "{""swagger"":""2.0"",""info"":{""title"":""doc0"",""version"":""1""},
    ""parameters"":{""p0"":{""in"":""query"",""name"":""q28"",""type"":""string""},""p1"":{""$ref"":""#/parameters/p0""}},
